@@ -38,6 +38,11 @@ VARIABLES l, bad,
           lastDel   \* the delivery made inside releaseConn whose rel.deliver line is still to come
 tvars == <<vars, l, bad, active, callp, lastDel>>
 
+\* connection / waiter ids are fresh per case; the runner passes the largest id of the trace file
+EnvNat(name, dflt) == IF name \in DOMAIN IOEnv THEN atoi(IOEnv[name]) ELSE dflt
+TraceNC == EnvNat("VERIF_NC", 48)
+TraceNW == EnvNat("VERIF_NW", 48)
+
 Line == Trace[l]
 HasLine == l <= Len(Trace)
 Ev(e) == HasLine /\ active /\ Line.ev = e
@@ -246,7 +251,7 @@ NextCase(k) == IF \E j \in k + 1 .. Len(Trace) : Trace[j].ev = "Case"
 
 Mismatch == /\ HasLine /\ ~ENABLED Normal
             /\ bad' = Append(bad, l)
-            /\ l' = IF Len(bad) >= 50 THEN Len(Trace) + 1 ELSE NextCase(l)
+            /\ l' = NextCase(l)
             /\ BlankVars /\ active' = FALSE
 
 MismatchEOF == /\ l = Len(Trace) + 1 /\ active
